@@ -11,6 +11,9 @@ Outcome(zone, before, after, after2) == [zone |-> zone, before |-> before, after
 RowsOf(rows, i) == { k \in DOMAIN rows : rows[k][1] = i - 1 }
 IndexOK(x, rows, hi) == \A k \in DOMAIN rows : rows[k][1] >= 0 /\ rows[k][1] < N(x) /\ rows[k][2] >= 0 /\ rows[k][2] <= hi
 MaxOf(S) == CHOOSE m \in S : \A k \in S : k <= m
+\* characters of substitution / insertion rows are indices into the alphabet (size a): one at or beyond a cannot be honoured
+CharOK(rows, a) == \A k \in DOMAIN rows : rows[k][3] < a
+AOf(c) == IF "A" \in DOMAIN c THEN c.A ELSE 4
 
 \* the elements of a set of integers in ascending order
 RECURSIVE Sorted(_)
@@ -24,8 +27,8 @@ SubAfter(x, rows) ==
         LET hit == { k \in RowsOf(rows, i) : rows[k][2] = q - 1 } IN
         IF hit = {} THEN x[i][q] ELSE rows[CHOOSE k \in hit : TRUE][3]]]
 \* conflicting rows (one position, two different characters) have no specified result: zone "any"
-ExpSubstitution(x, rows) ==
-    IF ~IndexOK(x, rows, L(x) - 1) THEN Outcome("reject", <<>>, <<>>, <<>>)
+ExpSubstitution(x, rows, a) ==
+    IF ~IndexOK(x, rows, L(x) - 1) \/ ~CharOK(rows, a) THEN Outcome("reject", <<>>, <<>>, <<>>)
     ELSE Outcome(IF SubConflict(rows) THEN "any" ELSE "accept", x, SubAfter(x, rows), SubAfter(x, rows))
 
 \* ---------------------------------------------------------------- deletion
@@ -56,8 +59,8 @@ InsFrom(xi, rows, i, q, up) ==
     IF q > Len(xi) THEN Emit(rows, InsAt(rows, i, q), up)           \* coordinate L: after the last character
     ELSE Emit(rows, InsAt(rows, i, q), up) \o <<xi[q]>> \o InsFrom(xi, rows, i, q + 1, up)
 InsAmbiguous(rows) == \E a, b \in DOMAIN rows : a # b /\ rows[a][1] = rows[b][1] /\ rows[a][2] = rows[b][2] /\ rows[a][3] # rows[b][3]
-ExpInsertion(x, rows, left) ==
-    IF ~IndexOK(x, rows, L(x)) THEN Outcome("reject", <<>>, <<>>, <<>>)
+ExpInsertion(x, rows, left, a) ==
+    IF ~IndexOK(x, rows, L(x)) \/ ~CharOK(rows, a) THEN Outcome("reject", <<>>, <<>>, <<>>)
     ELSE LET Trim(full) == [i \in 1..N(x) |-> IF left THEN SubSeq(full[i], Len(full[i]) - L(x) + 1, Len(full[i]))
                                                        ELSE SubSeq(full[i], 1, L(x))]
              atEnd == \E k \in DOMAIN rows : rows[k][2] = L(x)      \* InsertStrictReject (see ErsatzOps): coordinate L may be refused
@@ -66,7 +69,7 @@ ExpInsertion(x, rows, left) ==
                     Trim([i \in 1..N(x) |-> InsFrom(x[i], rows, i, 1, FALSE)]))
 
 Expected(c) ==
-    CASE c.op = "substitution" -> ExpSubstitution(c.x, c.rows)
+    CASE c.op = "substitution" -> ExpSubstitution(c.x, c.rows, AOf(c))
       [] c.op = "deletion" -> ExpDeletion(c.x, c.rows, c.left)
-      [] c.op = "insertion" -> ExpInsertion(c.x, c.rows, c.left)
+      [] c.op = "insertion" -> ExpInsertion(c.x, c.rows, c.left, AOf(c))
 =============================================================================
